@@ -6,10 +6,15 @@ DEDUCTIVE = [
     ("clustering", "kneeliverse.clustering.complete_linkage"),
     ("clustering", "kneeliverse.clustering.centroid_linkage"),
     ("clustering", "kneeliverse.clustering.average_linkage"),
+    ("clustering", "lemma:single_linkage_monotone"),
+    ("clustering", "lemma:complete_linkage_monotone"),
 ]
 EXPLANATION = ("Each linkage is verified against a postcondition taken from the statement: one label per point, labels start at 0, "
                "step 0/1, and a new cluster starts at i exactly when the linkage distance (to the first point of the current run, "
-               "expressed through the labels) divided by the x range is >= t. Mode R.")
+               "expressed through the labels) divided by the x range is >= t. Mode R. The consequence 'the number of single- and "
+               "complete-linkage clusters never increases when t grows' is proved as two lemmas over the postconditions by induction on the "
+               "position (single: labels pointwise ordered; complete: greedy-stays-ahead invariant c1 >= c2 and (c1 = c2 => start1 <= start2)); "
+               "the lemma for complete linkage takes the existence of the first index of each run (least-element principle) as a hypothesis.")
 ASSUMPTIONS = ["mode R: cluster_center drift and the distance/threshold comparison are over the reals"]
 LEVEL_TEXT = ("Proof (mode R) of the threshold rule for all n, all strictly increasing x and all t>0 incl. exact ties, from VCs over the real "
               "source with loop invariants; cluster-count monotonicity as a lemma over the postconditions; bounded exact-rational "
